@@ -221,13 +221,18 @@ class SpawnProcess(multiprocessing.context.SpawnProcess):
                 error = OSError(exitcode, msg)
                 error.__cause__ = exc
 
-        self._logger_queue_.put(None)
         self._result_and_error_.close()
         self._result_and_error_ = None
         if error is not None:
             self._future_.set_exception(error)
         else:
             self._future_.set_result(result)
+
+        # End the log stream only after the child has exited: it flushes its pending
+        # log records into the pipe before it exits. Ending the stream earlier loses
+        # those records and, if they exceed the pipe buffer, blocks the child's exit.
+        multiprocessing.connection.wait([self.sentinel])
+        self._logger_queue_.put(None)
 
     @staticmethod
     def _finalize(logger_thread, q):
